@@ -315,7 +315,9 @@ def compiled_mutable(objdir):
                     or "__odr" in name or "DW.ref" in name:
                 continue
             # strip the argument list of the enclosing function for function-local statics
-            names.add(re.sub(r"\[abi:[^\]]*\]", "", re.sub(r"\(.*\)::", "()::", name)))
+            # (template arguments may contain parentheses — `Scope<(BitSerializer::SerializeMode)0>` — so they are removed first)
+            full = re.sub(r"\[abi:[^\]]*\]", "", name)
+            names.add(re.sub(r"\(.*\)::", "()::", full) if "<" not in full else full)
     return sorted(names)
 
 
@@ -375,7 +377,9 @@ def generate(repo, outdir, workdir, objdir=None):
                 prev = n
                 n = re.sub(r"<[^<>]*>", "", n)
             return n
-        body = "\n" + ",\n".join(f"  ({lean_str(strip_targs(n))}, {lean_str(n)})" for n in cm)
+        def short(n):
+            return re.sub(r"\(.*\)::", "()::", strip_targs(n))
+        body = "\n" + ",\n".join(f"  ({lean_str(short(n))}, {lean_str(n)})" for n in cm)
     lines += ["/-- library symbols that the compiled objects place in writable sections (objdump of the harness build):",
               "    (name with template arguments stripped, full demangled name) -/",
               "def compiledMutable : List (String × String) := [" + body, "]", "", "end BSVerif.Generated.Inventory", ""]
